@@ -317,7 +317,7 @@ func c15ParamGrammar(x *mc.X) *mc.Outcome {
 func init() {
 	Register(&Prop{
 		ID:    "C15",
-		Rule:  "full product: one execution = one real http.Request: method {GET, HEAD, POST, PUT, PATCH, DELETE, OPTIONS} × Content-Type {absent, empty, json, json with charset (two spellings), form, form with charset, multipart, text/plain, unknown; + 3 spellings outside the statement run for panic-freedom only} × body {JSON object, {}, truncated, array, null, number, string, empty, form, malformed escape, semicolon form, single-valued list} × query {none, single, repeated, m[] once, m[] twice, malformed} × {x optional, x required} × {Struct schema, Ptr(Struct) schema} × {body with known length, body of unknown length}, each source carrying its own sentinel keys and values; plus the parameter grammar: every sequence of ≤3 parameters over keys {x, l, m[]} × values {empty, v1, v2} as GET query / POST form body / split between body and query; every case is non-trivial; distinct = distinct (expected source, media type, decode issue, issues)",
+		Rule:  "full product: one execution = one real http.Request: method {GET, HEAD, POST, PUT, PATCH, DELETE, OPTIONS, get, Head, PROPFIND} (tokens are case-sensitive) × request history {untouched, a middleware called ParseForm, called FormValue} × Content-Type {absent, empty, json, json with charset (two spellings), form, form with charset, multipart, text/plain, unknown; + 3 spellings outside the statement run for panic-freedom only} × body {JSON object, {}, truncated, array, null, number, string, empty, form, malformed escape, semicolon form, single-valued list} × query {none, single, repeated, m[] once, m[] twice, malformed} × {x optional, x required} × {Struct schema, Ptr(Struct) schema} × {body with known length, body of unknown length}, each source carrying its own sentinel keys and values; plus the parameter grammar: every sequence of ≤3 parameters over keys {x, l, m[]} × values {empty, v1, v2} as GET query / POST form body / split between body and query; every case is non-trivial; distinct = distinct (expected source, media type, decode issue, issues)",
 		Floor: 30,
 		Bound: func(tier string) string { return "full product (both tiers), identity and reversed field visit orders" },
 		Assumptions: []string{
